@@ -116,6 +116,10 @@ def payload_ok(rule, p):
         return True
     if rule == "EMPTY":
         return p == ""
+    if sum(1 for ch in p if ch.isdigit()) > 4000:
+        # more digits than int() converts (CPython's limit is 4300): whether such a "number" is in range is not decided
+        # here - only that handling it must not raise
+        return None
     if rule == "BIN01":
         if p in ("0", "1"):
             return True
